@@ -102,6 +102,15 @@ def foreign_handles(check, repo):
                     if isinstance(v, ast.Call) and isinstance(v.func, ast.Attribute) and v.func.attr == "get" and \
                             isinstance(v.func.value, ast.Attribute) and isinstance(v.func.value.value, ast.Name):
                         handle_of[st.targets[0].id] = v.func.value.value.id
+            # which object's curve a callee comes from:  cmp_func = self._curve.rawlib.cmp
+            lib_of = {}
+            for st in walk_no_nested(f):
+                if isinstance(st, ast.Assign) and len(st.targets) == 1 and isinstance(st.targets[0], ast.Name):
+                    v = st.value
+                    if isinstance(v, ast.Attribute) and isinstance(v.value, ast.Attribute) and v.value.attr == "rawlib" and \
+                            isinstance(v.value.value, ast.Attribute) and v.value.value.attr == "_curve" and \
+                            isinstance(v.value.value.value, ast.Name):
+                        lib_of[st.targets[0].id] = v.value.value.value.id
             for c in walk_no_nested(f):
                 if not isinstance(c, ast.Call):
                     continue
@@ -114,10 +123,20 @@ def foreign_handles(check, repo):
                     elif isinstance(a, ast.Name) and a.id in handle_of:
                         owners.add(handle_of[a.id])
                 foreign = sorted(o for o in owners if o in params)
-                if "self" not in owners or not foreign:
+                if not foreign:
+                    continue
+                callee_lib = lib_of.get(c.func.id) if isinstance(c.func, ast.Name) else None
+                if callee_lib is None:
+                    continue
+                other = foreign[0]
+                # fine by construction: the routine comes from the curve of the only object whose handle it receives
+                if "self" not in owners and callee_lib == other:
+                    n += 1
+                    check.ob("F", "F|foreign-handle|%s" % q, True, mod.path, c.lineno,
+                             extracted="%s hands the native handle of `%s` to a routine of %s's own curve" % (q, other, other),
+                             expected="two handles given to one native routine come from objects of the same curve")
                     continue
                 n += 1
-                other = foreign[0]
                 guarded = False
                 for t in walk_no_nested(f):
                     if isinstance(t, ast.If) and t.lineno < c.lineno:
@@ -129,9 +148,9 @@ def foreign_handles(check, repo):
                         if "self" in names and other in names and leaves:
                             guarded = True
                 check.ob("F", "F|foreign-handle|%s" % q, guarded, mod.path, c.lineno,
-                         extracted="%s passes its own native handle and the one of `%s` to a native routine %s" % (
-                             q, other, "after checking that both belong to the same curve" if guarded else
+                         extracted="%s passes the native handle of `%s` to a routine of %s's curve %s" % (
+                             q, other, callee_lib, "after checking that both belong to the same curve" if guarded else
                              "WITHOUT relating self._curve to %s._curve (the routine would read a structure of another layout)" % other),
                          expected="two handles given to one native routine come from objects of the same curve")
-    if n < 3:
-        raise AnalysisError("only %d two-handle native calls found in _point.py (confirmed: 3)" % n)
+    if n < 5:
+        raise AnalysisError("only %d native calls with a foreign handle found in _point.py (confirmed: 5)" % n)
